@@ -57,6 +57,9 @@ BODIES = {
     'result': (lambda: {'accessToken': 'NEWACC', 'clientToken': 'NEWCLI', 'selectedProfile': {'id': 'PID2', 'name': 'Name2'}, 'availableProfiles': []}, [0, s_('NEWACC'), s_('NEWCLI'), s_('PID2'), s_('Name2')]),
     'error': (lambda: {'error': 'ForbiddenOperationException', 'errorMessage': 'Invalid credentials.'}, [1, s_('ForbiddenOperationException'), s_('Invalid credentials.'), []]),
     'error+cause': (lambda: {'error': 'E', 'errorMessage': 'msg é', 'cause': 'UserMigratedException'}, [1, s_('E'), s_('msg é'), [s_('UserMigratedException')]]),
+    # the service's texts are data: braces, percent signs and format fields in them mean nothing
+    'error+braces': (lambda: {'error': 'JsonParseException{}', 'errorMessage': "Unexpected character ('}' (code 125)) {status_code} {0} %s %(x)d {"},
+                     [1, s_('JsonParseException{}'), s_("Unexpected character ('}' (code 125)) {status_code} {0} %s %(x)d {"), []]),
     'partial': (lambda: {'error': 'OnlyError'}, [2]),
     'nonjson': (lambda: '<html>Bad Gateway</html>', [3]),
     'empty': (lambda: '', [4]),
